@@ -54,6 +54,13 @@ FS_CASES = [
             "pkg/__pycache__/f.py": "from district42 import schema\n",
             "notes.txt": "from district42 import schema\n",
             "broken.py": "from district42 import (\n"}},
+    {"fs": {"sub.py": "from district42.types import DictSchema, ListSchema as L\nfrom valera.errors import ValidationError\n"
+                      "from revolt.errors import SubstitutionError\nfrom district42.utils import is_ellipsis\nx = DictSchema\n",
+            "pkg/errs.py": "from district42.errors import DeclarationError\nfrom district42.representor import Representor\n",
+            "pkg/top.py": "from blahblah import fake\nfrom valera import validate_or_fail\nfrom revolt import substitute\n"},
+     "entry": "cli"},
+    {"fs": {"sub.py": "from district42.types import DictSchema\nfrom valera.errors import ValidationError\n",
+            "star.py": "from valera \\\n    import *\nfrom district42 import \\\n    schema\n"}},
 ]
 
 
@@ -82,9 +89,20 @@ def _check_fs(case, ctx):
                 fh.write(text)
         try:
             with contextlib.redirect_stdout(io.StringIO()):
-                migrate_v1_to_v2(root)
-        except Exception as e:  # noqa
-            raise Violation("migrate-raises", f"migrate_v1_to_v2 raised {e!r} on {sorted(case['fs'])!r}")
+                if case.get("entry") == "cli":
+                    # the command line entry point: `d42 v1-to-v2 <dir>`
+                    import sys as _sys
+                    from d42._main import run
+                    argv = _sys.argv
+                    _sys.argv = ["d42", "v1-to-v2", root]
+                    try:
+                        run()
+                    finally:
+                        _sys.argv = argv
+                else:
+                    migrate_v1_to_v2(root)
+        except (Exception, SystemExit) as e:  # noqa
+            raise Violation("migrate-raises", f"migration raised {e!r} on {sorted(case['fs'])!r}")
         for rel, text in case["fs"].items():
             with open(os.path.join(root, rel), encoding="utf-8", newline="") as fh:
                 now = fh.read()
@@ -163,7 +181,8 @@ def strategy(tier):
                 names.append([n, a])
         styles = ["line", "line", "paren", "line-spaced"] + (["paren-multi", "backslash", "backslash-before-import"]
                                                              if allow_multiline else [])
-        style = "line" if names == "*" else draw(st.sampled_from(styles))
+        style = draw(st.sampled_from(["line", "line", "backslash-before-import"] if allow_multiline else ["line"])) \
+            if names == "*" else draw(st.sampled_from(styles))
         comment = draw(st.one_of(st.none(), st.none(), odd_text))
         return ["from", module, level, names, style, comment]
 
@@ -215,6 +234,8 @@ def _render_from(s, nl, indent=""):
     _, module, level, names, style, comment = s
     head = "from " + "." * level + (module or "") + " import "
     if names == "*":
+        if style == "backslash-before-import":
+            return [indent + "from " + "." * level + (module or "") + " \\", indent + "    import *" + _comment(comment)]
         return [indent + head + "*" + _comment(comment)]
     items = [n if a is None else f"{n} as {a}" for n, a in names]
     if style == "line":
